@@ -534,9 +534,10 @@ Definition resolve_blocked (s : bal) : bal * list (nat * N) := resolve_from s 0 
 Inductive outcome := DOk | DErr | DDeadlineClient | DDeadlineOther.
 
 (* func (p gcpPicker) unresponsiveWindow(scRef *subConnRef) time.Duration (ns) *)
+Definition MaxInt64 : Z := 9223372036854775807.
 Definition unresponsiveWindow (s : bal) (r : slot) : Z :=
-  let factor := if sl_rcnt r <? 32 then 2 ^ sl_rcnt r else 0 in
-  1000000 * ((factor * cfg_ums s) mod W32).
+  let w := 1000000 * cfg_ums s in
+  if (sl_rcnt r <? 63) && (w <=? MaxInt64 / 2 ^ sl_rcnt r) then w * 2 ^ sl_rcnt r else MaxInt64.
 
 (* func (gb gcpBalancer) refresh(ref *subConnRef) *)
 Definition refresh (s : bal) (i : nat) : bal * list out :=
